@@ -40,12 +40,13 @@ ORDER_CLAUSES = ["ExactlyOnceNoDuplicate", "OnlyEmitted", "InEmissionOrder", "De
 ORDER_INVS = [f"Inv_{c}" for c in ORDER_CLAUSES] + ["NoWedge", "NothingLost"]
 
 
-def order_mc(ctx: Ctx, wd, max_steps: int, pres: str, fix_err: bool, fix_tail: bool, name: str, emit: bool):
+def order_mc(ctx: Ctx, wd, max_steps: int, pres: str, name: str):
     wrap_module(wd, "LogOrder", "MC_LogOrder", {
-        "Emit": 'Finished => PrintT("@@J@@" \\o ToJson([script |-> script, em |-> em, rv |-> rv]))'}, extends="TLC, Json")
-    cfg = render_cfg(constants={"MaxSteps": max_steps, "Pres": Raw(pres), "FixLogsBeforeError": fix_err,
-                                "FixHttpExchangeTail": fix_tail}, invariants=ORDER_INVS + (["Emit"] if emit else []))
-    r = run_tlc(wd, "MC_LogOrder", cfg, timeout=1500, cfg_name=f"lo_{int(fix_err)}{int(fix_tail)}_{max_steps}.cfg")
+        "Emit": 'Finished => PrintT("@@J@@" \\o ToJson([script |-> script, design |-> design, em |-> em, rv |-> rv]))'},
+        extends="TLC, Json")
+    cfg = render_cfg(constants={"MaxSteps": max_steps, "Pres": Raw(pres),
+                                "Designs": Raw('{"intended", "found", "onlyE", "onlyT"}')}, invariants=ORDER_INVS + ["Emit"])
+    r = run_tlc(wd, "MC_LogOrder", cfg, timeout=1500, cfg_name=f"lo_{max_steps}.cfg")
     ctx.add_tlc(name, r)
     return r
 
@@ -67,17 +68,19 @@ def order_key(sc: dict) -> str:
 def part_order(ctx: Ctx, wd, worlds) -> None:
     quick = ctx.quick
     max_steps, pres = (2, "{0, 2}") if quick else (3, "{0, 1, 2}")
-    r = order_mc(ctx, wd, max_steps, pres, True, True, f"LogOrder intended MaxSteps={max_steps} Pres={pres}", True)
+    # one run: the clauses are invariants of the intended design; the designs "as found" / partially repaired are explored
+    # side by side and only contribute their histories (what a real execution is compared with for drift)
+    r = order_mc(ctx, wd, max_steps, pres, f"LogOrder MaxSteps={max_steps} Pres={pres} (clauses on design=intended)")
     require_ok(r, "LogOrder intended design")
-    cases = {}
+    cases: dict = {}
     for j in r.json_lines:
         k = order_key(j["script"])
-        if k in cases and (cases[k]["em"], cases[k]["rv"]) != (j["em"], j["rv"]):
+        slot = cases.setdefault(k, {"script": j["script"], "designs": {}})
+        if j["design"] in slot["designs"] and slot["designs"][j["design"]] != {"em": j["em"], "rv": j["rv"]}:
             raise RuntimeError(f"LogOrder model is not deterministic for {j['script']}")
-        cases[k] = j
-    for fe, ft, nm in ((False, True, "logs_before_error"), (True, False, "http_exchange_tail")):
-        found = order_mc(ctx, wd, 1, "{0, 1}", fe, ft, f"LogOrder as found ({nm} switched off)", False)
-        ctx.extra[f"design_as_found_violates[{nm}]"] = found.violated
+        slot["designs"][j["design"]] = {"em": j["em"], "rv": j["rv"]}
+    ctx.extra["scripts_where_design_as_found_differs_from_intended"] = sum(
+        1 for c in cases.values() if c["designs"]["found"] != c["designs"]["intended"])
     keys = sorted(cases)
     if not quick and len(keys) > 9000:        # thorough: full model, seeded sample of the replays
         keep = set(ctx.rng.sample(keys, 9000))
@@ -91,9 +94,9 @@ def part_order(ctx: Ctx, wd, worlds) -> None:
         prog, specs = G.order_prog(sc, ctx.rng)
         res = G.run_order_script(worlds[sc["tr"]], sc, x, prog, specs)
         ctx.case(["order", k], sample={"part": "order", "script": sc, "emitted": _c(res["em"]), "client_saw": _c(res["rv"]),
-                                       "model_client_saw": _c(cases[k]["rv"])} if i % 1201 == 7 else None)
-        obs.append({"case": {"k": k}, "obs": {"em": res["em"], "rv": res["rv"], "expect_em": cases[k]["em"], "expect_rv": cases[k]["rv"]}})
-        metas.append((sc, res, cases[k]))
+                                       "model_client_saw": _c(cases[k]["designs"]["intended"]["rv"])} if i % 1201 == 7 else None)
+        obs.append({"case": {"k": k}, "obs": {"em": res["em"], "rv": res["rv"], "expects": list(cases[k]["designs"].values())}})
+        metas.append((sc, res, cases[k]["designs"]["intended"]))
     bad = U.judge(ctx, "wire", "LogOrderClauses", obs)
     for idx, clauses in bad:
         sc, res, exp = metas[idx]
@@ -127,7 +130,7 @@ def part_content(ctx: Ctx, worlds) -> None:
     for idx, clauses in bad:
         c, o = metas[idx]
         for cl in clauses:
-            ctx.violation(cl, {"part": "content", "transport": c["tr"], "at": c["at"], "extra": c["extra"], "txt": c["txt"]},
+            ctx.violation(cl, {"part": "content", "transport": c["tr"], "at": c["at"], "extra": c["extra"]},
                           {"case": c, "observed": _pub(o), "notes": o["_notes"]})
     ctx.extra["content_cases_enumerated"] = len(cases)
     ctx.extra["content_cases_executed"] = len(sel)
